@@ -105,6 +105,25 @@ theorem up_finishContainer (ev : Evalr ρ) (st : St ρ) (ne : Elem) (bb : Option
     simp only [Option.isSome_some, if_true, Bool.true_and, Bool.true_or, up_updateElement, up_setPrev]
     split <;> rfl
 
+theorem up_setElementDefault (st : St ρ) (e : Elem) : (up st).setElementDefault e = up (st.setElementDefault e) := by
+  obtain ⟨g1, o1, s1, e1, d1, i1, c1, r1, u1, p1, n1⟩ := st
+  cases s1 <;> rfl
+
+theorem up_foldl_setElementDefault (es : List Elem) (st : St ρ) :
+    es.foldl St.setElementDefault (up st) = up (es.foldl St.setElementDefault st) := by
+  induction es generalizing st with
+  | nil => rfl
+  | cons x xs ih => simp only [List.foldl_cons, up_setElementDefault, ih]
+
+theorem up_genDefaults (st : St ρ) (kids : Option Nodes) : genDefaults (up st) kids = upR (genDefaults st kids) := by
+  unfold genDefaults
+  cases kids with
+  | none => rfl
+  | some ks => simp only [up_foldl_setElementDefault]; rfl
+
+@[simp] theorem up_leafDefaults (st : St ρ) (e : Elem) (kids : Option Nodes) :
+    leafDefaults (up st) e kids = leafDefaults st e kids := rfl
+
 theorem up_genVar (ev : Evalr ρ) (st : St ρ) (e : Elem) : genVar ev (up st) e = upR (genVar ev st e) := by
   have key : ∀ (r : Except CErr (List (Str × Str) × ρ)),
       (match r with
@@ -382,7 +401,7 @@ theorem dispatch_sstep (st : St ρ) e kids (hs : st.scopes ≠ []) (h1d : 1 ≤ 
   simp only [h6, Bool.false_eq_true, if_false] at hnd ⊢
   by_cases h7 : (e.name == cs!"defaults") = true
   · simp only [h7, if_true]
-    rfl
+    exact up_genDefaults st kids
   simp only [h7, Bool.false_eq_true, if_false] at hnd ⊢
   by_cases h8 : (e.name == cs!"for") = true
   · simp only [h8, if_true] at hnd ⊢
@@ -608,7 +627,8 @@ theorem genNode_sstep (st : St ρ) n (hs : st.scopes ≠ [])
   cases n with
   | elem e kids tail =>
     unfold Ctl.genNode at hnd ⊢
-    exact seq_shift hnd (fun h => ih.genElem st e kids hs h) (fun _ _ _ => rfl)
+    rw [up_leafDefaults] at hnd ⊢
+    exact seq_shift hnd (fun h => ih.genElem st _ kids hs h) (fun _ _ _ => rfl)
   | comment c tail => unfold Ctl.genNode; rfl
   | text t => unfold Ctl.genNode; rfl
   | cdata c => unfold Ctl.genNode; rfl
